@@ -108,7 +108,7 @@ def gen_files(rng, syms, d0):
 
 def gen_case(rng):
     d0 = dtm.date(2015, 1, 1) + dtm.timedelta(days=rng.randrange(0, 2500))
-    syms = ['AAA', 'BBB', 'CCC'][:rng.randint(1, 3)]
+    syms = (['AAA', 'BBB', 'CCC'] if rng.random() < 0.7 else ['BRK.B', 'BRK.A', 'BF.B'])[:rng.randint(1, 3)]     # tickers may contain dots
     files = gen_files(rng, syms, d0)
     files2 = None
     if rng.random() < 0.3:
